@@ -73,6 +73,15 @@ def run(ctx):
     cfg = ctx.pick('MC_Session_tables.cfg', 'MC_Session_tables_deep.cfg')
     mcreplay.model_check(rep, 'MC_Session.tla', cfg, 'C02/C03 invariants')
     sessionprop.run_sessions(ctx, rep, sessions(ctx, rep, cfg), relevant('C02'))
+    # the same bookkeeping reached through GDB mode: the plugin hands over closures, and a message the program *sends* names its
+    # target by id only (no interface) - attribution then rests on the table alone
+    from props import gdbbase
+
+    def gdb_sessions():
+        for k in range(ctx.pick(60, 600)):
+            yield (gdbbase.gdb_session(ctx.seed * 1000211 + k, ctx.rnd.randint(20, 60), cmd_rate=0.0, destroy_rate=0.02, init_break=0.0),
+                   {'dialect': 'new'}, 'gdb-mode')
+    sessionprop.run_sessions(ctx, rep, gdb_sessions(), relevant('C02'), runner=gdbbase.runner, spec=gdbbase.SPEC, label='GDB mode')
     rep.assumptions = ['the printer model (harness/printer.py) renders lines as libwayland does',
                        'TLC, the JSON bridge and the projection/lexer code are trusted']
     return rep
